@@ -66,4 +66,82 @@ example : (match ctxCopy.sliceToSlice (.field (.root "dst" 9) "Q" 3) (.field (.r
     | .ok (some (.sliceLoop _ _ t)) => t
     | _ => "other") = "[]interface{}" := by decide
 
+/-! ## calls that would not compile are never built (repairs #8, #9, #32 and the error-getter argument) -/
+
+/-- a converter's argument is never a `(value, error)` getter call, and its address is taken only
+when it has one: whatever `convArg` returns either fits the parameter type as it is, or the
+parameter is a pointer, the argument fits the pointed-to type and is addressable -/
+theorem convArg_sound (c : FieldConverter) (rhsNode a : Node) (w : List String)
+    (h : ctx.convArg c rhsNode = .ok (some a, w)) :
+    rhsNode.returnsError = false ∧
+    ((∃ w1, ctx.castNode c.argTy rhsNode = .ok (some a, w1)) ∨
+     (ctx.env.isPtr c.argTy = true ∧ a.addressable ctx.env = true ∧
+        ∃ w2, ctx.castNode (ctx.env.derefPtr c.argTy) rhsNode = .ok (some a, w2))) := by
+  unfold BCtx.convArg at h
+  split at h
+  · cases h
+  · rename_i hre
+    refine ⟨by simpa using hre, ?_⟩
+    cases h1 : ctx.castNode c.argTy rhsNode with
+    | error e => simp only [h1] at h; cases h
+    | panic p => simp only [h1] at h; cases h
+    | ok r =>
+      obtain ⟨a1?, w1⟩ := r
+      cases a1? with
+      | some a1 =>
+        simp only [h1] at h
+        cases h
+        exact Or.inl ⟨_, rfl⟩
+      | none =>
+        simp only [h1] at h
+        split at h
+        · cases h
+        · rename_i hptr
+          cases h2 : ctx.castNode (ctx.env.derefPtr c.argTy) rhsNode with
+          | error e => simp only [h2] at h; cases h
+          | panic p => simp only [h2] at h; cases h
+          | ok r2 =>
+            obtain ⟨a2?, w2⟩ := r2
+            cases a2? with
+            | none => simp only [h2] at h; cases h
+            | some a2 =>
+              simp only [h2] at h
+              split at h
+              · rename_i hadr
+                cases h
+                exact Or.inr ⟨by simpa using hptr, hadr, _, rfl⟩
+              · cases h
+
+/-- a path never calls a method that needs an addressable operand on an operand that has no
+address, never a method with parameters, never one whose results are not `T` or `(T, error)` -/
+theorem walkPath_calls_callable (seg : String) (rest : List String) (node : Node) (typ : TyId) (m : MethodInfo)
+    (n : Node) (hl : ctx.env.lookup typ (nameAt seg) = .method m)
+    (h : ctx.walkPath (seg :: rest) node typ = some n) :
+    (m.needsAddr = true → node.addressable ctx.env = true) ∧ (ctx.env.parseGetterReturnTypes m).isSome = true := by
+  simp only [BCtx.walkPath, hl] at h
+  split at h
+  · cases h
+  · rename_i hna
+    refine ⟨?_, ?_⟩
+    · intro hm
+      simp only [hm, Bool.true_and, Bool.not_eq_true', Bool.not_eq_false] at hna
+      exact hna
+    · split at h
+      · cases h
+      · split at h
+        · cases h
+        · split at h
+          · cases h
+          · rename_i heq
+            simp [heq]
+
+/-- `ParseGetterReturnTypes` accepts no method with parameters -/
+theorem getter_takes_no_parameters (env : Env) (m : MethodInfo) (h : (env.parseGetterReturnTypes m).isSome = true) :
+    m.nparams = 0 := by
+  unfold Env.parseGetterReturnTypes at h
+  split at h
+  · cases h
+  · rename_i hn
+    simpa using hn
+
 end Convergen.Props.C01
